@@ -20,7 +20,7 @@ def parse(diff_text):
             continue
         if raw.startswith("+++ "):
             path = raw[4:].strip()
-            if path.startswith("b/"):
+            if path.startswith("b/") or path.startswith("a/"):
                 path = path[2:]
             cur = files.setdefault(path, [])
             hunk = None
